@@ -1,12 +1,11 @@
 CONSTANTS
-  Impl = "current"
+  Impl = "pinned"
   ReadImpl = "asis"
   EofWithData = FALSE
-  MaxNalLen = 4
-  MaxChunk = 4
+  MaxNalLen = 2
+  MaxChunk = 2
   HdrSyms = {"S", "H", "Z", "O"}
   BodySyms = {"Z", "O", "F", "S"}
 SPECIFICATION Spec
 INVARIANTS TypeOK Exact
-PROPERTIES Terminates
 CHECK_DEADLOCK FALSE
